@@ -185,6 +185,16 @@ def stepOk (names : List Name) (op : Op) (b a : Obs) : Option String :=
            if a.res != "TypeError" then some s!"forbidden: assignment to protected '{n}' of instance {j} ended with {a.res}, not TypeError"
            else (allHeldSame names b a).map (fun w => s!"forbidden: rejected assignment changed a value: {w}")
          else none)
+    | .instSetAsync j n v =>
+      -- an asynchronous reference is just another assignment
+      (match idxOf names n with
+       | none => none
+       | some k =>
+         let f := b.govFlags j k
+         if a.res != "skip" && (isRO f || (isConst f && some v != b.held j k)) then
+           if a.res != "TypeError" then some s!"forbidden: async reference assigned to protected '{n}' of instance {j} ended with {a.res}, not TypeError"
+           else (allHeldSame names b a).map (fun w => s!"forbidden: rejected assignment changed a value: {w}")
+         else none)
     | .update j kvs =>
       (match expectUpdate names b j kvs with
        | some e => if a.res != e then some s!"forbidden: update of instance {j} ended with {a.res}, expected {e}" else none
